@@ -1,10 +1,67 @@
 package vsched
 
 import (
-	"fmt"
 	"reflect"
 	"sort"
+	"strconv"
 )
+
+//go:norace
+func typeName(v any) string { return reflect.TypeOf(v).String() }
+
+//go:norace
+func (s *Sched) isClosed(p uintptr) bool {
+	for _, q := range s.chClosed {
+		if q == p {
+			return true
+		}
+	}
+	return false
+}
+
+//go:norace
+func (s *Sched) markClosed(p uintptr) {
+	if !s.isClosed(p) {
+		s.chClosed = append(s.chClosed, p)
+	}
+}
+
+// chanEn is the enabledness of a channel operation.
+type chanEn struct {
+	s *Sched
+	v reflect.Value
+}
+
+//go:norace
+func (c chanEn) Enabled(kind Kind) bool {
+	if kind == KSend {
+		return c.s.sendReady(c.v)
+	}
+	return c.s.recvReady(c.v)
+}
+
+type selectEn struct {
+	s          *Sched
+	cases      []Case
+	hasDefault bool
+}
+
+//go:norace
+func (e selectEn) Enabled(Kind) bool {
+	if e.hasDefault {
+		return true
+	}
+	for _, c := range e.cases {
+		if c.send {
+			if e.s.sendReady(c.ch) {
+				return true
+			}
+		} else if e.s.recvReady(c.ch) {
+			return true
+		}
+	}
+	return false
+}
 
 // ---- channels (rule R3). The real channel is kept; the scheduler only decides when
 // an operation may run, i.e. when it cannot block. ----
@@ -20,7 +77,7 @@ func (s *Sched) recvReady(v reflect.Value) bool {
 	if v.Len() > 0 {
 		return true
 	}
-	if s.chClosed[chanPtr(v)] {
+	if s.isClosed(chanPtr(v)) {
 		return true
 	}
 	// Channels closed by code that is not instrumented (context cancellation): an
@@ -28,7 +85,7 @@ func (s *Sched) recvReady(v reflect.Value) bool {
 	// because every sender under the scheduler is a thread that is not running now.
 	x, ok := v.TryRecv()
 	if x.IsValid() && !ok {
-		s.chClosed[chanPtr(v)] = true
+		s.markClosed(chanPtr(v))
 		return true
 	}
 	if x.IsValid() && ok {
@@ -42,7 +99,7 @@ func (s *Sched) sendReady(v reflect.Value) bool {
 	if v.IsNil() {
 		return false
 	}
-	if s.chClosed[chanPtr(v)] {
+	if s.isClosed(chanPtr(v)) {
 		return true // will panic, as the real send does
 	}
 	if v.Cap() == 0 {
@@ -57,7 +114,7 @@ func (s *Sched) sendReady(v reflect.Value) bool {
 func Recv[T any](ch <-chan T) T {
 	if s := installed(); s != nil {
 		v := reflect.ValueOf(ch)
-		s.point(&op{kind: KRecv, label: "recv", obj: chanPtr(v), enabled: func() bool { return s.recvReady(v) }})
+		s.point(&op{kind: KRecv, label: "recv", obj: chanPtr(v), en: chanEn{s, v}})
 	} else if Mode() == 2 {
 		var zero T
 		return zero
@@ -71,7 +128,7 @@ func Recv[T any](ch <-chan T) T {
 func Recv2[T any](ch <-chan T) (T, bool) {
 	if s := installed(); s != nil {
 		v := reflect.ValueOf(ch)
-		s.point(&op{kind: KRecv, label: "recv", obj: chanPtr(v), enabled: func() bool { return s.recvReady(v) }})
+		s.point(&op{kind: KRecv, label: "recv", obj: chanPtr(v), en: chanEn{s, v}})
 	} else if Mode() == 2 {
 		var zero T
 		return zero, false
@@ -86,7 +143,7 @@ func Recv2[T any](ch <-chan T) (T, bool) {
 func Send(ch any, do func()) {
 	if s := installed(); s != nil {
 		v := reflect.ValueOf(ch)
-		s.point(&op{kind: KSend, label: "send", obj: chanPtr(v), enabled: func() bool { return s.sendReady(v) }})
+		s.point(&op{kind: KSend, label: "send", obj: chanPtr(v), en: chanEn{s, v}})
 	} else if Mode() == 2 {
 		return
 	}
@@ -100,7 +157,7 @@ func Close(ch any, do func()) {
 	if s := installed(); s != nil {
 		v := reflect.ValueOf(ch)
 		s.point(&op{kind: KClose, label: "close", obj: chanPtr(v)})
-		s.chClosed[chanPtr(v)] = true
+		s.markClosed(chanPtr(v))
 	} else if Mode() == 2 {
 		return
 	}
@@ -112,7 +169,7 @@ func Close(ch any, do func()) {
 //go:norace
 func MarkClosed(ch any) {
 	if s := installed(); s != nil {
-		s.chClosed[chanPtr(reflect.ValueOf(ch))] = true
+		s.markClosed(chanPtr(reflect.ValueOf(ch)))
 	}
 }
 
@@ -175,31 +232,31 @@ func Select(hasDefault bool, cases ...Case) *Sel {
 		}
 		return &Sel{Idx: i, val: v, ok: ok}
 	}
-	ready := func() []int {
-		var r []int
-		for i, c := range cases {
-			if c.send {
-				if s.sendReady(c.ch) {
-					r = append(r, i)
-				}
-			} else if s.recvReady(c.ch) {
-				r = append(r, i)
-			}
-		}
-		return r
-	}
 	var obj uintptr
 	if len(cases) > 0 && !cases[0].ch.IsNil() {
 		obj = chanPtr(cases[0].ch)
 	}
-	s.point(&op{kind: KSelect, label: fmt.Sprintf("select/%d", len(cases)), obj: obj, enabled: func() bool { return hasDefault || len(ready()) > 0 }})
-	r := ready()
+	s.point(&op{kind: KSelect, label: "select/" + strconv.Itoa(len(cases)), obj: obj, en: selectEn{s, cases, hasDefault}})
+	var r []int
+	for i, c := range cases {
+		if c.send {
+			if s.sendReady(c.ch) {
+				r = append(r, i)
+			}
+		} else if s.recvReady(c.ch) {
+			r = append(r, i)
+		}
+	}
 	if len(r) == 0 {
 		return &Sel{Idx: -1}
 	}
 	k := 0
 	if len(r) > 1 {
-		k = Choose(fmt.Sprintf("select-arm%v", r), len(r))
+		lab := "select-arm"
+		for _, i := range r {
+			lab += "," + strconv.Itoa(i)
+		}
+		k = Choose(lab, len(r))
 	}
 	i := r[k]
 	c := cases[i]
@@ -231,6 +288,43 @@ func Got2[T any](_ <-chan T, s *Sel) (T, bool) {
 	return zero, s.ok
 }
 
+// keyString renders a map key for ordering without fmt (fmt's sync.Pool would add
+// happens-before edges between the threads that iterate maps).
+func keyString(v reflect.Value) string {
+	switch v.Kind() {
+	case reflect.String:
+		return v.String()
+	case reflect.Int, reflect.Int8, reflect.Int16, reflect.Int32, reflect.Int64:
+		return strconv.FormatInt(v.Int(), 10)
+	case reflect.Uint, reflect.Uint8, reflect.Uint16, reflect.Uint32, reflect.Uint64, reflect.Uintptr:
+		return strconv.FormatUint(v.Uint(), 10)
+	case reflect.Bool:
+		return strconv.FormatBool(v.Bool())
+	case reflect.Struct:
+		s := "{"
+		for i := 0; i < v.NumField(); i++ {
+			s += keyString(v.Field(i)) + " "
+		}
+		return s + "}"
+	case reflect.Pointer, reflect.Chan, reflect.UnsafePointer:
+		return strconv.FormatUint(uint64(v.Pointer()), 16)
+	case reflect.Interface:
+		if v.IsNil() {
+			return "<nil>"
+		}
+		return keyString(v.Elem())
+	case reflect.Array:
+		s := "["
+		for i := 0; i < v.Len(); i++ {
+			s += keyString(v.Index(i)) + " "
+		}
+		return s + "]"
+	case reflect.Float32, reflect.Float64:
+		return strconv.FormatFloat(v.Float(), 'g', -1, 64)
+	}
+	return v.Type().String()
+}
+
 // ---- map iteration order (rule R7) ----
 
 // MapOrder iterates m in sorted key order (by the keys' %v form), so that executions
@@ -243,7 +337,7 @@ func MapOrder[M ~map[K]V, K comparable, V any](m M) func(yield func(K, V) bool) 
 		}
 		keys := make([]kv, 0, len(m))
 		for k := range m {
-			keys = append(keys, kv{k, fmt.Sprintf("%v", k)})
+			keys = append(keys, kv{k, keyString(reflect.ValueOf(k))})
 		}
 		sort.Slice(keys, func(i, j int) bool {
 			if mapReverse {
